@@ -467,7 +467,7 @@ def clause_length_before_decode(prog, rep):
     for p in sorted(core):
         f = prog.fns[p]
         for c in f.live_calls():
-            if c.name == "decode" and c.krate == "hex" and c.args and "p" in c.args[0]:
+            if c.name in ("decode", "decode_to_slice") and c.krate == "hex" and c.args and "p" in c.args[0]:
                 og = A.origins(prog, f, c.args[0]["p"][0], scope=None, max_frames=0)
                 if not og.has_call(lambda x: x.name == "content" and last_seg(x.self_adt) == "Tag"):
                     # the decode may live in a helper that is handed the tag's content (`.and_then(decode_nostr_group_id_hex)`)
@@ -478,6 +478,10 @@ def clause_length_before_decode(prog, rep):
                 if not any(True for g in prog.family(root) for _ in g.aggregates("Error", "InvalidGroupIdFormat")):
                     continue
                 n += 1
+                if c.name == "decode_to_slice":
+                    # decodes into a caller-provided buffer and refuses any other length before writing: nothing is allocated
+                    rep.ok("length-before-decode", "h-tag/hex-decode", "the h tag is decoded into a fixed-size buffer (hex::decode_to_slice refuses other lengths; no allocation)", c.loc())
+                    continue
                 rep.check(len_checked(f, c.bb, c.args[0]["p"][0]), "length-before-decode", "h-tag/hex-decode",
                           "the h tag's length is checked before it is hex-decoded (no unbounded allocation)",
                           "the h tag is hex-decoded without a preceding length check", c.loc())
